@@ -153,6 +153,27 @@ func (p *Path) stubByName(name string, fn *ssa.Function, args []Value) (Value, b
 	case "sort.Strings":
 		p.sortStrings(args[0].(Slice))
 		return nil, true
+	case "sort.Slice", "sort.SliceStable":
+		ifc, ok := args[0].(Iface)
+		if !ok {
+			p.unsupported("sort.Slice of %T", args[0])
+		}
+		sl, ok := ifc.v.(Slice)
+		if !ok {
+			p.unsupported("sort.Slice of %T", ifc.v)
+		}
+		d := sl.data
+		for i := 1; i < len(d); i++ {
+			for j := i; j > 0; j-- {
+				r := p.callValue(args[1], []Value{mkInt(int64(j)), mkInt(int64(j - 1))}).(*Term)
+				if p.branch(r, "sort-less") {
+					d[j-1], d[j] = d[j], d[j-1]
+				} else {
+					break
+				}
+			}
+		}
+		return nil, true
 	case "strconv.Quote":
 		return goquote(args[0].(*Term)), true
 	case "strconv.QuoteRune":
